@@ -42,22 +42,30 @@ SUPPORTED RUST SUBSET AND ITS MEANING
               variables of the enclosing function that the body uses are extra parameters (after the macro's own, in the
               declaration order of the enclosing function), those it assigns are returned after the assigned parameters,
               a value (macros in expression position: `load0!()`, `blend!(a, b)`) last.  Expression arguments are evaluated
-              at the call site (they must not mention a variable the macro assigns).  Local macros are prefixed by the
-              function name.  `assert!`, `debug_assert!`, `unreachable!`, `panic!` are checks.
+              at the call site (they must not mention a variable the macro assigns; a place argument the macro only reads must not
+              be assigned by it under another name).  Local macros are prefixed by the function name.  `assert!`, `unreachable!`,
+              `panic!` are checks; `debug_assert!(c)` is the check `debugAssert (c)` (Util/DebugAssert.lean: the DEBUG-build meaning,
+              textually distinct from `assert!`; release builds are not modelled).
   control     `if c {..} else {..}` (statement or value; the variables assigned in a branch are joined through a tuple),
               `match <usize expr> { lit => e, …, _ => e }` as an `if` chain; `for _ in 0..n { body }` = structural recursion
               on the count (`<fn>_loop<k>_src` over the tuple of assigned variables, read-only ones as parameters);
               `while c { body }` = recursion on FUEL named by the spec (`fuel=["<rust expr>", …]`, one per loop in source
-              order, macro expansions included); `return`/`break`/`continue` are refused.
+              order, macro expansions included); `a && b` / `a || b` only with a right operand that cannot fail (both operands are
+              evaluated); `return` (own AST node; accepted only as the last statement of the function), `break`, `continue` are refused.
   slices      `b[lo..hi]`, `b[lo..]` = `Glue.slice` (PANIC), `.len()`, `.try_into().unwrap()` to `[u8; 4]` (length check),
               `u32::from_le_bytes` = `leU32`; `[c; n]` = `Glue.fill`; `a.get_unchecked(i)` (UB outside), `*x`, `&x`, `&mut x`.
   words       `wrapping_add` = `+`, `overflowing_add` = `(a + b, decide (2^w ≤ a.toNat + b.toNat))`, `^ & | !`, `<< >>` by
               constants; checked `+ - *` on words are refused.
   calls       other kernels of the same spec (translated first) and `Extern`s named by the spec (model functions tied
-              elsewhere: `reference::digest_block`, `e0`, `e1`, tables `K32`, `b::IV`, `s::IV` — the spec states the expected Rust
-              path of every aliasing `const X: T = path;`/`use`, checked on the source).
-Anything else raises TranslateError (-> broken extraction); nothing is skipped silently except attributes, `use` items and
-visibility.  NOT modelled (trusted / observed by the C16 correspondence): what the machine instruction does beyond
+              elsewhere: `reference::digest_block`, `e0`, `e1`, tables `K32`, `b::IV`, `s::IV`).  These names are resolved by
+              SPELLING; what gives a spelling its meaning is checked on the source: an aliasing `const X: T = path;` against the
+              spec's `const_path`, and every compiled `use` of the translated file against the expected imports (`Program(uses=…)`,
+              default table DEFAULT_USES below: name -> path; renaming imports, globs other than `core::arch::x86*::*` and an
+              unexpected import of a name the function mentions are refused).  Item lookups (fn / struct / const / mod) demand ONE
+              compiled definition in the bounded scope (`#[cfg]` evaluated with kernel_translate.cfg_atom).
+Anything else raises TranslateError (-> broken extraction); skipped are only attributes other than `cfg`/`cfg_attr` (those two are
+refused inside bodies) and visibility; refused in particular: nested `fn` items in a body, `let x = &mut <place>` / `&mut *p` aliases,
+an object passed twice to a call that writes it, paths with generic arguments, match guards.  NOT modelled (trusted / observed by the C16 correspondence): what the machine instruction does beyond
 Util/Intrinsics.lean (tested against hardware), alignment of base objects, `ptr::read` through an unaligned `*const i32`,
 that `usize` arithmetic does not overflow.
 """
@@ -119,6 +127,8 @@ def split_macros(text):
         if not m:
             out.append(text[pos:])
             break
+        if re.search(r"#\s*\[\s*cfg", KT.item_header(text, m.start())):
+            raise TranslateError(f"macro {m.group(1)}: `#[cfg]` on a macro definition is not translated")
         out.append(text[pos:m.start()])
         end = match_brace(text, m.end() - 1)
         arm = text[m.end():end - 1]
@@ -146,7 +156,42 @@ def split_macros(text):
 
 
 def strip_uses(text):
+    """remove the `use` items of a body (they are CHECKED by check_uses before; a renaming import never reaches this point)"""
+    if re.search(r"\buse\s[^;]*\bas\b", text):
+        raise TranslateError("renaming import (`use … as …`) inside a translated body")
     return re.sub(r"\buse\s+[\w:{}, *]+;", "", text)
+
+
+# Names are resolved by SPELLING (externs `e0`, `reference::digest_block`, tables `K32`, `b::IV`, intrinsics `_mm_*`, `read`): the
+# imports that give these spellings their meaning are therefore part of what is translated.  Expected imports per source file
+# (bound name -> path it must be imported from); `Program(uses={file: {...}})` overrides the entry of a file.
+DEFAULT_USES = {
+    "src/chacha/sse2.rs": {"TryInto": "core::convert::TryInto"},
+    "src/hashing/sha2/impl256/sse41.rs": {"reference": "super::reference", "read": "core::ptr::read",
+                                          "e0": "super::reference::e0", "e1": "super::reference::e1"},
+    "src/hashing/sha2/impl256/avx.rs": {"reference": "super::reference", "sse41": "super::sse41", "read": "core::ptr::read",
+                                        "e0": "super::reference::e0", "e1": "super::reference::e1"},
+    "src/hashing/blake2/avx.rs": {"b": "super::common::b", "s": "super::common::s", "LastBlock": "super::common::LastBlock"},
+    "src/hashing/blake2/avx2.rs": {"b": "super::common::b", "LastBlock": "super::common::LastBlock"},
+}
+ARCH_GLOBS = ("core::arch::x86_64::*", "core::arch::x86::*", "std::arch::x86_64::*", "std::arch::x86::*")
+
+
+def check_uses(k, src):
+    """every compiled `use` of the translated file: globs only of core::arch, no renaming, a name in the expected list only from
+    its expected path, and no other import may bind a name the translated function (or a macro of the file) mentions"""
+    expected = dict(getattr(k.prog, "uses", {}).get(k.file, DEFAULT_USES.get(k.file, {})))
+    KT.check_expected_uses(src, expected, k.file, ARCH_GLOBS)
+    try:
+        _, body = find_fn(src, k.fn, k.scope)
+    except TranslateError:
+        return
+    mentioned = set(re.findall(r"[A-Za-z_]\w*", body))
+    for mm in MACRO_RE.finditer(src):
+        mentioned |= set(re.findall(r"[A-Za-z_]\w*", src[mm.end():match_brace(src, mm.end() - 1)]))
+    for pos, path, name, renamed in KT.use_decls(src):
+        if name is not None and name not in expected and name in mentioned:
+            raise TranslateError(f"{k.file}: `use {path};` binds `{name}`, which the translated code mentions, and is not in the list of expected imports")
 
 
 def top_level_text(src):
@@ -181,7 +226,10 @@ class P3(P2):
 
 def parse_block(text):
     p = P3(lex(text))
+    p.fnitems = True                   # nested `fn` items become ("fnitem", …) statements: refused by Ex.stmt, never skipped
     b = p.block()
+    if p.dropped_generics:
+        raise TranslateError(f"generic arguments in a type (`{p.dropped_generics[0][0]}{p.dropped_generics[0][1]}`) are not translated")
     if p.peek()[0] != "eof":
         raise TranslateError(f"trailing tokens after block: {p.peek()}")
     return b
@@ -418,7 +466,8 @@ class Ext:
 class Program:
     """what the kernels of one spec module share: struct declarations, extern functions, module paths, emitted definitions"""
 
-    def __init__(self, externs=None, modules=None, sarr=None, enums=None, aliases=None):
+    def __init__(self, externs=None, modules=None, sarr=None, enums=None, aliases=None, uses=None):
+        self.uses = dict(uses or {})                # file -> {bound name: expected import path}  (default: DEFAULT_USES)
         self.externs = dict(externs or {})
         self.modules = dict(modules or {})          # (file, rust module path prefix) -> file, e.g. ("…/sse41.rs", "reference") -> "…/reference.rs"
         self.sarr = dict(sarr or {})                # (elem, n) -> (lean type, [field names])
@@ -495,6 +544,7 @@ class Ctx:
         self.lines = []
         self.fallible = False       # something in the CURRENT buffer can fail
         self.any_fallible = False
+        self.nfail = 0              # number of failure sites emitted so far (monotone)
         self.used = set()
         self.captures = {}          # place -> V (the parameter standing for the enclosing function's variable)
         self.param_places = {}      # place -> V for explicit (macro) parameters
@@ -536,6 +586,7 @@ class Ctx:
     def fail(self):
         self.fallible = True
         self.any_fallible = True
+        self.nfail += 1
 
     def bind(self, base, text, ty, mode="except", err="PANIC"):
         """`x ← text` written as a match"""
@@ -819,6 +870,8 @@ class Ex(Ctx):
         raise TranslateError("`!` on an unsupported type")
 
     def ex_path(self, e, want):
+        if len(e) > 2:
+            raise TranslateError(f"path with generic arguments `{e[2]}` (the arguments select the item; not translated)")
         name = e[1]
         if name in ("true", "false"):
             return lit(name == "true", "bool")
@@ -1020,7 +1073,14 @@ class Ex(Ctx):
         if k == "paren":
             return self.cond(e[1])
         if k == "bin" and e[1] in ("&&", "||"):
-            a, b = self.cond(e[2]), self.cond(e[3])
+            a = self.cond(e[2])
+            if a.const is not None and a.const == (e[1] == "||"):
+                return a                                        # decided by the left operand: the right one is not evaluated
+            n0, f0 = len(self.lines), self.nfail
+            b = self.cond(e[3])
+            if len(self.lines) != n0 or self.nfail != f0:
+                # `a && b` evaluates b only if a holds; rendered `a ∧ b` both are evaluated: faithful only if b cannot fail / has no effect
+                raise TranslateError(f"right operand of `{e[1]}` can fail or has an effect: short-circuit evaluation is not modelled")
             if a.const is not None and b.const is not None:
                 c = (a.const and b.const) if e[1] == "&&" else (a.const or b.const)
                 return V("True" if c else "False", "bool", c)
@@ -1122,7 +1182,11 @@ class Ex(Ctx):
             else:
                 if out is None:
                     raise TranslateError("match without a `_` arm")
-                out = [("ret", ("if", ("bin", "==", scrut, pat), body, out))]
+                test = None
+                for alt in (pat[1] if pat[0] == "orpat" else [pat]):       # or-pattern `p | q`: scrut == p || scrut == q
+                    t1 = ("bin", "==", scrut, alt)
+                    test = t1 if test is None else ("bin", "||", test, t1)
+                out = [("ret", ("if", test, body, out))]
         if out is None or (len(out) == 1 and out[0][0] == "ret" and out[0][1][0] != "if"):
             raise TranslateError("unsupported match")
         return out[0][1]
@@ -1161,6 +1225,8 @@ class Ex(Ctx):
         f = e[1]
         if f[0] != "path":
             raise TranslateError("call of a computed function")
+        if len(f) > 2:
+            raise TranslateError(f"call of `{f[2]}`: generic arguments select the callee; not translated")
         name = f[1]
         lv = self.lookup_opt(name) if "::" not in name else None
         if lv is not None and lv.ty == "fnname":
@@ -1297,7 +1363,7 @@ class Ex(Ctx):
         actual = ([recv] if recv is not None else []) + list(args)
         if len(actual) != len(params):
             raise TranslateError(f"{info.lean}: arity")
-        texts, outs_places = [], []
+        texts, outs_places, ptr_bufs = [], [], []
         for g in info.generics:
             texts.append(self.generic(g).p())
         for a, (pn, pty, mode) in zip(actual, params):
@@ -1309,6 +1375,7 @@ class Ex(Ctx):
                 if kind != pty[2]:
                     raise TranslateError(f"{info.lean}: pointer argument {pn} points into a {kind} buffer, the spec says {pty[2]}")
                 texts += [self.lookup(buf).p(), off.p()]
+                ptr_bufs.append(buf)
                 if mode == "mutptr":
                     outs_places.append(buf)
             else:
@@ -1319,6 +1386,10 @@ class Ex(Ctx):
                     if place is None:
                         raise TranslateError(f"{info.lean}: `&mut` argument {pn} is not a variable")
                     outs_places.append(place)
+        # the callee's model treats every `&mut` / `*mut` argument as a buffer of its own: two arguments into the SAME object would alias
+        for pl in outs_places:
+            if outs_places.count(pl) > 1 or ptr_bufs.count(pl) > 1:
+                raise TranslateError(f"{info.lean}: the object `{pl.replace('#buf', '')}` is passed twice and written through one of the arguments (aliasing is not modelled)")
         text = f"{info.lean} {' '.join(texts)}".strip()
         out_tys = list(info.outs) + ([] if info.ret == "unit" else [info.ret])
         if not out_tys:
@@ -1457,6 +1528,12 @@ class Ex(Ctx):
             return None
         if name in ("assert", "debug_assert"):
             c = self.cond(parse_expr_toks(args[0]))
+            if name == "debug_assert":
+                # checked only when `debug_assertions` is on: the guard goes through the marker `debugAssert` (Util/DebugAssert.lean:
+                # the same proposition, i.e. the meaning under a debug build), also when the condition is a constant, so that
+                # `assert!` <-> `debug_assert!` always changes the generated text
+                self.guard(f"debugAssert ({c.t})", "PANIC")
+                return None
             if c.const is True:
                 return None
             if c.const is False:
@@ -1529,12 +1606,15 @@ class Ex(Ctx):
                 written_names.add(pl.split(".")[0])
             else:
                 written_names.add(o[1].split(".")[0])
+        written_places = [argvals[o[1]][1] if o[0] == "param" else o[1] for o in inst.outs]
         for i, (pn, pl, av, toks) in enumerate(argvals):
-            if pl is None or not any(o == ("param", i) for o in inst.outs):
+            if pl is None or not any(o[:2] == ("param", i) for o in inst.outs):
                 ids = {t[1] for t in toks if t[0] == "id"}
                 if pl is not None:
-                    # a place argument that is only read: fine even if another parameter naming the same variable is written? refuse
-                    pass
+                    # a place argument the macro only READS is passed by value (evaluated before the body): not what the textual
+                    # expansion does if the body assigns the same place (or a part / the whole of it) through another name
+                    if any(w == pl or w.startswith(pl + ".") or pl.startswith(w + ".") for w in written_places):
+                        raise TranslateError(f"macro {name}: argument `{untok(toks)}` is read by the macro and also assigned by it under another name")
                 if ids & written_names and pl is None:
                     raise TranslateError(f"macro {name}: argument `{untok(toks)}` mentions a variable the macro assigns")
         call = f"{inst.lean} {' '.join(texts)}".strip()
@@ -1732,6 +1812,8 @@ class Ex(Ctx):
         k = s[0]
         if k == "let":
             pat, ty, init = s[1], s[2], s[3]
+            if len(s) > 4:
+                raise TranslateError("`let x = &mut <place>` / `&mut *p` creates a mutable alias: writes through it would be lost (not translated)")
             dty = self.parser_ty(ty) if ty is not None else None
             if init is None:
                 names = [pat] if pat[0] == "var" else pat[1]
@@ -1775,10 +1857,16 @@ class Ex(Ctx):
             return self.for_(s)
         if k == "while":
             return self.while_(s)
+        if k == "return":
+            raise TranslateError("`return` before the end of the function (early return) is not translated")
+        if k == "fnitem":
+            raise TranslateError(f"nested `fn {s[1]}` inside a translated body (it would shadow the function a call is resolved to)")
         raise TranslateError(f"unsupported statement {k}")
 
     def assign_stmt(self, s):
         lhs, op, rhs = s[1], s[2], s[3]
+        if len(s) > 4:
+            raise TranslateError("`p = &mut <place>` creates a mutable alias: writes through it would be lost (not translated)")
         if op != "=":
             rhs = ("bin", op[:-1], lhs, rhs)
         while lhs[0] in ("paren", "deref"):
@@ -1971,9 +2059,12 @@ def blank_fn_bodies(src):
 
 def translate_struct(k):
     src = read_src(k.file)
-    m = re.search(r"((?:#\[[^\]]*\]\s*)*)(?:pub(?:\([^)]*\))?\s+)?struct\s+" + re.escape(k.fn) + r"\b\s*(<[^>]*>)?\s*([({])", src)
-    if not m:
-        raise TranslateError(f"struct {k.fn} not found")
+    groups = KT.scan_braces(src)
+    ms = [m for m in re.finditer(r"((?:#\[[^\]]*\]\s*)*)(?:pub(?:\([^)]*\))?\s+)?struct\s+" + re.escape(k.fn) + r"\b\s*(<[^>]*>)?\s*([({])", src)
+          if KT.compiled_at(src, m.start() + len(m.group(1)), groups) is not False]
+    if len(ms) != 1:
+        raise TranslateError(f"struct {k.fn}: {len(ms)} compiled declarations found (exactly one expected)")
+    m = ms[0]
     attrs = m.group(1)
     if k.align is not None and not re.search(r"repr\s*\(\s*align\s*\(\s*%d\s*\)\s*\)" % k.align, attrs):
         raise TranslateError(f"struct {k.fn} must be declared #[repr(align({k.align}))] (aligned loads/stores of it would fault)")
@@ -2005,13 +2096,19 @@ def translate_struct(k):
 def find_const(src, name, module=None):
     text = src
     if module:
-        m = re.search(r"\bmod\s+" + re.escape(module) + r"\s*\{", text)
-        if not m:
-            raise TranslateError(f"module {module} not found")
+        g0 = KT.scan_braces(text)
+        mods = [m for m in re.finditer(r"\bmod\s+" + re.escape(module) + r"\s*\{", text) if KT.compiled_at(text, m.start(), g0) is not False]
+        if len(mods) != 1:
+            raise TranslateError(f"module {module}: {len(mods)} compiled definitions (exactly one expected)")
+        m = mods[0]
         text = text[m.end():match_brace(text, m.end() - 1) - 1]
-    m = re.search(r"\bconst\s+" + re.escape(name) + r"\s*:\s*([^=]+?)\s*=\s*", text)
-    if not m:
-        raise TranslateError(f"const {name} not found")
+    groups = KT.scan_braces(text)
+    ms = [m for m in re.finditer(r"\bconst\s+" + re.escape(name) + r"\s*:\s*([^=]+?)\s*=\s*", text) if KT.compiled_at(text, m.start(), groups) is not False]
+    d0 = min((KT.depth_at(groups, m.start()) for m in ms), default=0)
+    ms = [m for m in ms if KT.depth_at(groups, m.start()) == d0]
+    if len(ms) != 1:
+        raise TranslateError(f"const {name}: {len(ms)} compiled definitions in the same scope (exactly one expected)")
+    m = ms[0]
     j, depth = m.end(), 0
     while j < len(text):
         c = text[j]
@@ -2061,6 +2158,7 @@ def translate(k):
     if k.kind == "const":
         return translate_const(k)
     src = read_src(k.file)
+    check_uses(k, src)
     hdr, body = find_fn(src, k.fn, k.scope)
     params, ret = parse_sig(hdr)
     body = strip_uses(body)
@@ -2118,7 +2216,10 @@ def translate(k):
     ret_rust = None
     if ret is not None and isinstance(ret, tuple) and ret[0] == "named":
         ret_rust = k.self_ty if ret[1] == "Self" else ret[1]
-    val = ex.block(parse_block(body), rty if rty != "unit" else None, scoped=False)
+    stmts = parse_block(body)
+    if stmts and stmts[-1][0] == "return" and stmts[-1][1] is not None:
+        stmts[-1] = ("ret", stmts[-1][1])          # `return e;` as the LAST statement of the function is its trailing value
+    val = ex.block(stmts, rty if rty != "unit" else None, scoped=False)
     if root.while_no != len(k.fuel):
         raise TranslateError(f"{k.fn}: the spec names {len(k.fuel)} fuel expression(s), the body has {root.while_no} `while` loop(s)")
     finals = []
